@@ -33,7 +33,7 @@ MANIFEST = {
             'modifiers, size/etc, null/missing, syntax (dtml/ssi/epfs/'
             'entity) and access (name/expression), is rendered on the real '
             'code with a TaintedString carrying "<" at every position of '
-            'three carriers (each time right after the same text was '
+            'four carriers (one with tab / line-break separators; each time right after the same text was '
             'rendered untainted), plus all written orders of 2 and 3 of 9 '
             'modifiers; the output must contain no "<" other than the '
             '<br /> that newline_to_br inserts, and never "&amp;lt;".',
